@@ -2,7 +2,7 @@
    Model: ValueProp.v (one node construction), ValuePropProg.v (programs).  cfg_orig = the pinned tree, cfg_fixed = the
    repaired code (fixes/F5.diff, F5b.diff, F5c.diff). *)
 From Coq Require Import List Bool String Arith.
-From Spox Require Import ValueProp ValuePropFacts.
+From Spox Require Import ValueProp ValuePropFacts ValuePropProg ValuePropProgFacts.
 Import ListNotations.
 Open Scope string_scope.
 
@@ -77,3 +77,44 @@ Theorem C15_none_backend_no_values :
   construct c BNone n r = Ok (map (fun o => (o_field o, out_type o, o_val0 o, false)) (n_out n)).
 Proof. exact none_backend_no_values. Qed.
 Print Assumptions C15_none_backend_no_values.
+
+(* ---- programs (sequences of constructions; every step refers to earlier Vars only) ------------------------------ *)
+(* [vle s s'] : the state s' of a Var in the faulty run is the fault-free state s, or it carries no value and its type is
+   equal to or more permissive than the fault-free one.
+   Under the hypothesis "infer monotone in known constant operands" (named below), for every program, backend, step
+   evaluator bk and fault plan: if every faulted step ended with nothing attached (the fault was a detected one:
+   exception, non-conforming or missing result – see C15_attached_values_conform for why anything attached conforms),
+   then every Var of the faulty run is [vle]-related to the fault-free one: types only get more permissive, values only
+   disappear, nothing new or different is attached downstream. *)
+Theorem C15_downstream_more_permissive :
+  forall (opk : Type) (infer : opk -> list vstate -> list (option ty)) (bk : nat -> list vstate -> backend_result),
+  (* infer monotone in known constant operands *)
+  (forall o ins ins', Forall2 vle ins ins' -> Forall2 (fun t t' => oty_ge t t' = true) (infer o ins) (infer o ins')) ->
+  forall c b fault prog i env env',
+  Forall (wf_step opk) prog -> Forall2 vle env env' ->
+  snd (run opk infer bk c b fault i prog env') = true ->
+  Forall2 vle (fst (run opk infer bk c b (@no_fault) i prog env)) (fst (run opk infer bk c b fault i prog env')).
+Proof. exact downstream_more_permissive. Qed.
+Print Assumptions C15_downstream_more_permissive.
+
+(* Switching propagation off: the structure that reaches the build ([structure prog]: operators, edges, names) is a
+   function of the program alone – Var states are no input to it –, and the Var states under NONE are [vle]-related to
+   those under any backend: only the precision of reported types (hence of value infos) can differ. *)
+Theorem C15_none_backend_same_models :
+  forall (opk : Type) (infer : opk -> list vstate -> list (option ty)) (bk : nat -> list vstate -> backend_result),
+  (forall o ins ins', Forall2 vle ins ins' -> Forall2 (fun t t' => oty_ge t t' = true) (infer o ins) (infer o ins')) ->
+  forall c b prog i env env',
+  c_nonefix c = true -> Forall (wf_step opk) prog -> Forall2 vle env env' ->
+  Forall2 vle (fst (run opk infer bk c b (@no_fault) i prog env)) (fst (run opk infer bk c BNone (@no_fault) i prog env')).
+Proof. exact none_backend_same_models. Qed.
+Print Assumptions C15_none_backend_same_models.
+
+(* the hypotheses are satisfiable on a non-trivial program: constant shape -> Mul (faulted: list for a tensor) -> Reshape *)
+Theorem C15_downstream_example :
+  Forall2 vle (fst (run nat Toy.infer Toy.bk cfg_fixed BRef (@no_fault) 0 Toy.prog []))
+              (fst (run nat Toy.infer Toy.bk cfg_fixed BRef Toy.fault 0 Toy.prog [])) /\
+  (run nat Toy.infer Toy.bk cfg_fixed BRef Toy.fault 0 Toy.prog [] =
+    ([(Some Toy.t_data, Some (VArr EF32 [6])); (Some Toy.t_sh, Some (VArr EI64 [2])); (Some Toy.t_sh, None);
+      (Some (Tensor EF32 (Some [DUnk; DUnk])), None)], true)).
+Proof. exact (conj Toy.downstream_instance Toy.faulty_run). Qed.
+Print Assumptions C15_downstream_example.
